@@ -458,6 +458,18 @@ func runCase(c Case) *ev.Failure {
 				}
 			}
 		}
+		// the application can still register handlers on the server's mux (a fault on one
+		// connection must not leave the dispatcher locked for everybody else)
+		regDone := make(chan struct{})
+		go func() {
+			mux.HandleFunc("ZZR", func(diam.Conn, *diam.Message) {})
+			close(regDone)
+		}()
+		select {
+		case <-regDone:
+		case <-time.After(promptDeadline):
+			return ev.Failf("mux-blocked-after-fault", "after the faults of the case, registering a handler on the server's ServeMux did not return within %v: the dispatcher is locked and no connection can be served any more", promptDeadline)
+		}
 		// a connection opened after all faults is accepted and served
 		lis.Push(late)
 		for s := 1; s <= c.LateN; s++ {
